@@ -71,6 +71,16 @@ func formatObjectName(name string) string {
 	return tools.UpperCamelCase(name)
 }
 
+// formatEnumMemberName names the member of an enum class. The member whose
+// name is empty (typically: the empty string) is called `NONE`.
+func formatEnumMemberName(name string) string {
+	if name == "" {
+		return "NONE"
+	}
+
+	return tools.UpperSnakeCase(name)
+}
+
 func formatIdentifier(name string) string {
 	name = strings.TrimLeft(name, "$_")
 	return escapeKeyword(tools.SnakeCase(escapeIdentifier(name)))
@@ -167,10 +177,10 @@ func defaultValueForTypeRec(schemas ast.Schemas, typeDef ast.Type, importModule 
 
 		referredObj, found := schemas.LocateObject(ref.ReferredPkg, ref.ReferredType)
 		if found && referredObj.Type.IsEnum() {
-			enumName := tools.UpperSnakeCase(referredObj.Type.AsEnum().Values[0].Name)
+			enumName := formatEnumMemberName(referredObj.Type.AsEnum().Values[0].Name)
 			for _, enumValue := range referredObj.Type.AsEnum().Values {
 				if enumValue.Value == typeDef.Default {
-					enumName = tools.UpperSnakeCase(enumValue.Name)
+					enumName = formatEnumMemberName(enumValue.Name)
 					break
 				}
 			}
